@@ -32,7 +32,8 @@ Inductive shape := ShU | ShCS | ShSS | ShBD.
 Definition client_streams (s : shape) : bool := match s with ShCS | ShBD => true | _ => false end.
 Definition server_streams (s : shape) : bool := match s with ShSS | ShBD => true | _ => false end.
 
-Inductive stim := StFail | StChClose | StCtxEnd | StShutdown | StStop | StAdvance | StOpen | StRawEnd.
+Inductive stim := StFail | StChClose | StCtxEnd | StShutdown | StStop | StAdvance | StOpen | StRawEnd
+  | StMarshal.   (* the carrier refused to encode a frame (e.g. a string field that is not valid UTF-8) and ended *)
 
 Inductive ev :=
 | Emit (d : dir) (t : N) (id : Z) (k : fkind) (ok : bool)
